@@ -1,14 +1,75 @@
 import MmtkModel.Model.Map32
+import MmtkModel.Lemmas.Map32FL
+import MmtkModel.Lemmas.Map32Ghost
+import MmtkModel.Lemmas.Map32Init
 /-!
-# C29 — Discontiguous chunk allocation keeps the region map consistent  (PARTIAL)
+# C29 — Discontiguous chunk allocation keeps the region map consistent  (history invariant PROVED for the model)
 
-Full statement (NOT yet proved; checked on the implementation by the oracle of `checks/C29.py` and
-on the executable model by the differential): for every history of `allocate_contiguous_chunks` /
-`free_contiguous_chunks` / `free_all_chunks` from the finalised state,
+Statement: for every history of `allocate_contiguous_chunks` / `free_contiguous_chunks` /
+`free_all_chunks` from the finalised state (`finalize_static_space_map`),
 `regions_disjoint ∧ descriptor_exact ∧ links_exact ∧ avail_exact` is an invariant.
 
-Proved here: the per-operation facts the inductive step of that invariant consists of — what a
-single free / allocate does to `avail`, the descriptors and the links, for **every** state.
+## Status: proved here (complete proofs, no assumption structure)
+
+* `Inv lo hi g st` — the invariant, for the discontiguous range `[lo, hi)` (`lo` = first chunk,
+  `hi` = last chunk + 1) and the bookkeeping `g : G` of the Python oracle of `checks/C29.py`
+  (`g.regions` = regions handed out and not yet freed with size and owner descriptor, `g.lists` =
+  per space the list of its region starts, head first).  Its fields:
+  `regions_disjoint` (`RegionsDisjoint`: regions non-empty, inside `[lo, hi)`, pairwise disjoint),
+  `descriptor_exact` (`DescriptorExact`: `desc x = d` inside a region allocated with `d`, `0` outside all
+  regions), `links_exact` (`LinksExact`: the lists partition the region starts without repetition, each
+  list is chained exactly by `next`/`prev` with `0` at both ends, every other chunk has no links),
+  `avail_exact` (`AvailExact`: `avail + Σ region sizes = hi - lo`), plus the coupling with the region map
+  (`lo_pos`: chunk 0 is the null address; `fl : FLInv lo hi st.fl`: runs non-empty and pairwise disjoint,
+  `order` = the starts of the free runs once each, free runs inside `[lo, hi)`; `reg_run`: every region
+  is an allocated run of the map, hence `get_contiguous_region_chunks` = its size, `Inv.region_chunks`).
+  The task sheet asked for `Inv : St → Prop`; the statement needs the range and the oracle's bookkeeping
+  (which regions were handed out to whom is not a function of `St` when a descriptor is used by two
+  lists), so `Inv` takes them as parameters and the history theorems compute `g` exactly as the oracle
+  does (`G.alloc`, `G.free`, `G.freeAll` in `Lemmas/Map32Ghost.lean`).
+* `inv_init` — `Inv first (last + 1) {} (finalize maxChunks first last)` for all
+  `0 < first ≤ last < maxChunks` (`Lemmas/Map32Init.lean`: `finalize_fl`, the code's own sequence of
+  free-list calls leaves one free run `[first, last + 1)`).
+* `inv_allocate`, `inv_free`, `inv_freeAll` — preservation by each operation, built on the
+  per-operation theorems `allocate_partial` / `freeNoLock_partial` below (kept unchanged) and on
+  `alloc_spec` / `freeRun_spec` (`Lemmas/Map32FL.lean`).  `inv_free` also gives: the call returns the
+  region's size.  `inv_allocate` covers the exhausted case (`0` returned, nothing changes).
+* `history_inv` (induction over the operation list), `history_inv_init` (from the finalised state) and
+  the user-facing corollaries `history_regions_disjoint`, `history_descriptor_exact`,
+  `history_links_exact`, `history_avail_exact`, `history_walk` (walking `get_next_contiguous_region`
+  from a list head visits exactly the list).
+* `step_isSome` / `history_no_panic` — under the invariant no assertion of
+  `allocate_contiguous_chunks` (`chunk != 0`, descriptor-empty `insert`, `next`/`prev` of the new
+  region zero) or `free_contiguous_chunks_no_lock` (`!get_free(unit)`) fires, debug or release.
+
+Hypotheses of the history theorems (`Valid` = `Pre` at every step; satisfiable: `example`s at the end):
+the callers' protocol — `chunks ≥ 1`, `head` is `0` or the current head of a list; only allocated region
+starts are freed; `free_all_chunks` gets `0` or a member of a list of at most `fuel + 1` regions (the
+model's two loops carry `fuel = 4096`; the code's loops are unbounded — `inv_freeAll`/`freeAll_spec` are
+stated for every `fuel`).  Without the protocol the statement is false for the code itself (pushing
+in front of a non-head corrupts the lists).
+
+## About the free list (no `FLAssumptions`)
+
+`Model/Map32.lean` does not go through `Mmtk.Runs` nor through the bit-level table: it carries its own
+run-level region map (`FL`, `FL.alloc`, `FL.freeRun`).  Every fact about it that the invariant needs
+is *proved* from those definitions in `Lemmas/Map32FL.lean` (`alloc_spec`, `alloc_none_iff`,
+`freeRun_spec`, `freeRun_eq_strong`), so there is no assumption structure and no axiom.  That the run-level
+map is what the bit-level `freelist.rs` table does is C26's refinement and the exact differential.
+
+## Exactness of a failed allocation (the oracle's `map32:alloc-fails`)
+
+`InvX` = `Inv` + the runs cover `[lo, hi)` + no two free runs are adjacent (`FLFull`,
+`alloc_full` / `freeRun_full` in `Lemmas/Map32FL.lean`) + every allocated run meeting the range is a
+region; `invX_init`, `invX_allocate`, `invX_free`, `invX_freeAll`, `history_invX`.
+`alloc_fails_exact` / `history_alloc_fails_exact`: when `allocate_contiguous_chunks(k)` returns `0`
+there is no window of `k` consecutive unallocated chunks in the range.
+
+## Outside this file
+
+* The model's `free_all_chunks` loops are fuel-bounded (4096 each), the code's are not: the history
+  theorems ask for lists of at most 4097 regions.
+* That the run-level region map is what the bit-level table of `freelist.rs` does: C26 + differential.
 -/
 namespace Mmtk.Map32
 
@@ -122,5 +183,1093 @@ theorem allocate_sets_descriptors (debug : Bool) (st st' : St) (d k head c : Nat
     (∀ x, c ≤ x → x < c + k → st.desc x = 0) ∧
     (∀ x, st'.desc x = if c ≤ x ∧ x < c + k then d else st.desc x) :=
   ⟨(allocate_partial debug st st' d k head c h hc).2.2.2.1, (allocate_partial debug st st' d k head c h hc).2.2.2.2.1⟩
+
+/-! ## The history invariant -/
+
+/-- `regions_disjoint`: the regions handed out and not yet freed are non-empty, lie inside the
+discontiguous range `[lo, hi)` and are pairwise disjoint. -/
+def RegionsDisjoint (lo hi : Nat) (g : G) : Prop :=
+  g.regions.Pairwise Reg.Disj ∧ ∀ r ∈ g.regions, 0 < r.size ∧ lo ≤ r.start ∧ r.start + r.size ≤ hi
+
+/-- `descriptor_exact`: a chunk's descriptor is `d` iff it lies in a region currently allocated with
+`d`, and is `0` (uninitialised) otherwise. -/
+def DescriptorExact (g : G) (st : St) : Prop :=
+  (∀ r ∈ g.regions, ∀ x, r.start ≤ x → x < r.start + r.size → st.desc x = r.desc) ∧
+  (∀ x, (∀ r ∈ g.regions, ¬ (r.start ≤ x ∧ x < r.start + r.size)) → st.desc x = 0)
+
+/-- `links_exact`: the lists partition the allocated region starts; following `next` from the head of a
+list visits exactly its regions, in order, once, and ends with `0`; `prev` is the inverse (`0` at the
+head); every chunk that is not an allocated region start has no links. -/
+def LinksExact (g : G) (st : St) : Prop :=
+  g.lists.flatten.Nodup ∧ (∀ c, c ∈ g.lists.flatten ↔ ∃ r ∈ g.regions, r.start = c) ∧
+  (∀ l ∈ g.lists, Linked st 0 l) ∧ (∀ c, c ∉ g.lists.flatten → st.next c = 0 ∧ st.prev c = 0)
+
+/-- `avail_exact`: `avail` = number of chunks of `[lo, hi)` that are not allocated. -/
+def AvailExact (lo hi : Nat) (g : G) (st : St) : Prop := st.avail + regSum g.regions = hi - lo
+
+/-- The invariant of C29 for the discontiguous range `[lo, hi)` (`lo` = first chunk, `hi` = last chunk
++ 1 of `finalize_static_space_map`), relating the model state to the oracle's bookkeeping `g`. The
+first three fields tie the region map to the bookkeeping (chunk 0 is the null address; the region map
+is well formed and its free runs lie in the range; every region is an allocated run of the map). -/
+structure Inv (lo hi : Nat) (g : G) (st : St) : Prop where
+  lo_pos : 0 < lo
+  fl : FLInv lo hi st.fl
+  reg_run : ∀ r ∈ g.regions, (⟨r.start, r.size, false⟩ : Run) ∈ st.fl.runs
+  regions_disjoint : RegionsDisjoint lo hi g
+  descriptor_exact : DescriptorExact g st
+  links_exact : LinksExact g st
+  avail_exact : AvailExact lo hi g st
+
+theorem Inv.zero_not_mem {lo hi : Nat} {g : G} {st : St} (hI : Inv lo hi g st) : 0 ∉ g.lists.flatten := by
+  intro h0
+  obtain ⟨r, hr, hr0⟩ := (hI.links_exact.2.1 0).1 h0
+  have := (hI.regions_disjoint.2 r hr).2.1
+  have := hI.lo_pos
+  omega
+
+/-- `get_contiguous_region_chunks` of an allocated region is its size. -/
+theorem Inv.region_chunks {lo hi : Nat} {g : G} {st : St} (hI : Inv lo hi g st) {r : Reg}
+    (hr : r ∈ g.regions) : regionChunks st r.start = r.size :=
+  hI.fl.sizeOf_eq (hI.reg_run r hr)
+
+theorem freeNoLock_fl (debug : Bool) (st st' : St) (c n : Nat)
+    (h : freeNoLock debug st c = some (st', n)) : st'.fl = (st.fl.freeRun c).2 := by
+  unfold freeNoLock at h
+  split at h
+  · cases h
+  · simp only [Option.some.injEq, Prod.mk.injEq] at h
+    rw [← h.1]
+
+/-- Freeing an allocated region never hits the `debug_assert!(!get_free(unit))`. -/
+theorem freeNoLock_isSome {lo hi : Nat} {g : G} {st : St} (hI : Inv lo hi g st) {r : Reg}
+    (hr : r ∈ g.regions) (debug : Bool) : ∃ st' n, freeNoLock debug st r.start = some (st', n) := by
+  have hfree : st.fl.isFree r.start = false := hI.fl.isFree_eq (hI.reg_run r hr)
+  unfold freeNoLock
+  simp [hfree]
+
+theorem G.free_regions (g : G) (c : Nat) : (g.free c).regions = g.regions.filter (fun r => r.start != c) := by
+  unfold G.free G.freeSet
+  simp only
+  congr 1; funext r; simp only [List.contains_cons, List.contains_nil, Bool.or_false, bne]
+
+theorem G.free_lists (g : G) (c : Nat) : (g.free c).lists = g.lists.map (fun l => l.filter (· != c)) := by
+  unfold G.free G.freeSet
+  simp only
+  congr 1; funext l; congr 1; funext x; simp only [List.contains_cons, List.contains_nil, Bool.or_false, bne]
+
+/-- **Preservation by `free_contiguous_chunks`** of an allocated region `r`: the call returns the
+region's size and the invariant holds again for the bookkeeping without `r`. -/
+theorem inv_free {lo hi : Nat} {g : G} {st : St} (hI : Inv lo hi g st) {r : Reg} (hr : r ∈ g.regions)
+    {debug : Bool} {st' : St} {n : Nat} (h : freeNoLock debug st r.start = some (st', n)) :
+    n = r.size ∧ Inv lo hi (g.free r.start) st' := by
+  obtain ⟨hn, hav, hdesc, hnc, hpc, hpo, hno⟩ := freeNoLock_partial debug st st' r.start n h
+  have hu : Unlinks st st' r.start := ⟨hnc, hpc, hpo, hno⟩
+  have hrun := hI.reg_run r hr
+  have hsz : st.fl.sizeOf r.start = r.size := hI.fl.sizeOf_eq hrun
+  have hn' : n = r.size := hn.trans hsz
+  obtain ⟨hrpos, hrlo, hrhi⟩ := hI.regions_disjoint.2 r hr
+  obtain ⟨_, hflinv, hflmem⟩ := freeRun_spec hI.fl hrun hrlo hrhi
+  have hfl := freeNoLock_fl debug st st' r.start n h
+  obtain ⟨hnd, hmem, hlk, hunl⟩ := hI.links_exact
+  have h0 := hI.zero_not_mem
+  -- a region that starts elsewhere is disjoint from `r`
+  have hother : ∀ r' ∈ g.regions, r'.start ≠ r.start → Reg.Disj r' r := by
+    intro r' hr' hne
+    exact pw_mem (fun _ _ => Reg.Disj.symm) hI.regions_disjoint.1 hr' hr (fun e => hne (e ▸ rfl))
+  -- the list of `r.start`
+  obtain ⟨lc, hlc, hclc⟩ := List.mem_flatten.1 ((hmem r.start).2 ⟨r, hr, rfl⟩)
+  have hlcmem := Linked.next_mem (hlk lc hlc) hclc
+  refine ⟨hn', ⟨hI.lo_pos, hfl ▸ hflinv, ?_, ⟨?_, ?_⟩, ⟨?_, ?_⟩, ⟨?_, ?_, ?_, ?_⟩, ?_⟩⟩
+  · -- reg_run
+    intro r' hr'
+    rw [G.free_regions, List.mem_filter] at hr'
+    rw [hfl]
+    exact (hflmem ⟨r'.start, r'.size, false⟩ rfl).2 ⟨hI.reg_run r' hr'.1, by simpa using hr'.2⟩
+  · rw [G.free_regions]; exact hI.regions_disjoint.1.filter _
+  · intro r' hr'
+    rw [G.free_regions, List.mem_filter] at hr'
+    exact hI.regions_disjoint.2 r' hr'.1
+  · -- descriptors inside the remaining regions
+    intro r' hr' x hx1 hx2
+    rw [G.free_regions, List.mem_filter] at hr'
+    have hd := hother r' hr'.1 (by simpa using hr'.2)
+    rw [hdesc x, if_neg (by unfold Reg.Disj at hd; omega)]
+    exact hI.descriptor_exact.1 r' hr'.1 x hx1 hx2
+  · -- descriptors outside
+    intro x hx
+    rw [hdesc x]
+    split
+    · rfl
+    · rename_i hnin
+      apply hI.descriptor_exact.2
+      intro r' hr' hin
+      by_cases hs : r'.start = r.start
+      · have hpos' := (hI.regions_disjoint.2 r' hr').1
+        have : r' = r := by
+          apply Classical.byContradiction
+          intro hne
+          have hd := pw_mem (fun _ _ => Reg.Disj.symm) hI.regions_disjoint.1 hr' hr hne
+          unfold Reg.Disj at hd; omega
+        rw [this] at hin; omega
+      · exact hx r' (by rw [G.free_regions, List.mem_filter]; exact ⟨hr', by simpa using hs⟩) hin
+  · -- lists: nodup
+    rw [G.free_lists, ← List.filter_flatten]; exact hnd.filter _
+  · intro c
+    rw [G.free_lists, ← List.filter_flatten, List.mem_filter, hmem, G.free_regions]
+    constructor
+    · rintro ⟨⟨r', hr', rfl⟩, hc⟩
+      exact ⟨r', List.mem_filter.2 ⟨hr', hc⟩, rfl⟩
+    · rintro ⟨r', hr', rfl⟩
+      rw [List.mem_filter] at hr'
+      exact ⟨⟨r', hr'.1, rfl⟩, hr'.2⟩
+  · -- linked
+    intro l' hl'
+    rw [G.free_lists, List.mem_map] at hl'
+    obtain ⟨l, hl, rfl⟩ := hl'
+    have hl0 : 0 ∉ l := fun m => h0 (List.mem_flatten.2 ⟨l, hl, m⟩)
+    by_cases hcl : r.start ∈ l
+    · exact Linked.splice hu (hlk l hl) (nodup_of_mem_flatten hnd hl) hl0 hl0 hcl
+    · have hfilt : l.filter (· != r.start) = l := by
+        rw [List.filter_eq_self]; intro x hx; simp only [bne_iff_ne, ne_eq]; rintro rfl; exact hcl hx
+      rw [hfilt]
+      refine Linked.frame ?_ (hlk l hl)
+      intro x hx
+      have hxc : x ≠ r.start := fun e => hcl (e ▸ hx)
+      have hne : l ≠ lc := fun e => hcl (e ▸ hclc)
+      have hxlc : x ∉ lc := fun m => disjoint_of_nodup_flatten hnd hl hlc hne hx m
+      have hx0 : x ≠ 0 := fun e => hl0 (e ▸ hx)
+      rw [hno x hxc, hpo x hxc]
+      constructor
+      · rw [if_neg]
+        rintro ⟨hp0, e⟩
+        rcases hlcmem.2 with z | m
+        · exact hp0 z
+        · exact hxlc (e ▸ m)
+      · rw [if_neg]
+        rintro ⟨hn0, e⟩
+        rcases hlcmem.1 with z | m
+        · exact hn0 z
+        · exact hxlc (e ▸ m)
+  · -- unlinked
+    intro c hc
+    rw [G.free_lists, ← List.filter_flatten, List.mem_filter] at hc
+    by_cases hcr : c = r.start
+    · subst hcr; exact ⟨hnc, hpc⟩
+    · have hcf : c ∉ g.lists.flatten := fun m => hc ⟨m, by simpa using hcr⟩
+      have hclc' : c ∉ lc := fun m => hcf (List.mem_flatten.2 ⟨lc, hlc, m⟩)
+      obtain ⟨h1, h2⟩ := hunl c hcf
+      rw [hno c hcr, hpo c hcr]
+      constructor
+      · rw [if_neg]
+        · exact h1
+        · rintro ⟨hp0, e⟩
+          rcases hlcmem.2 with z | m
+          · exact hp0 z
+          · exact hclc' (e ▸ m)
+      · rw [if_neg]
+        · exact h2
+        · rintro ⟨hn0, e⟩
+          rcases hlcmem.1 with z | m
+          · exact hn0 z
+          · exact hclc' (e ▸ m)
+  · -- avail
+    show st'.avail + regSum (g.free r.start).regions = hi - lo
+    rw [G.free_regions, hav, hn']
+    have := regSum_remove hI.regions_disjoint.1 (fun x hx => (hI.regions_disjoint.2 x hx).1) hr
+    have := hI.avail_exact
+    unfold AvailExact at this
+    omega
+
+/-- An `allocate_contiguous_chunks` that returns normally either found no run (`0`, state unchanged)
+or returns the chunk the region map's `alloc` returned. -/
+theorem allocate_val (debug : Bool) (st st' : St) (d k head c : Nat)
+    (h : allocate debug st d k head = (st', .val c)) :
+    ((st.fl.alloc k).1 = none ∧ c = 0 ∧ st' = st) ∨ (st.fl.alloc k).1 = some c := by
+  unfold allocate at h
+  split at h
+  · rename_i x heq
+    simp only [Prod.mk.injEq, R.val.injEq] at h
+    exact Or.inl ⟨by rw [heq], h.2.symm, h.1.symm⟩
+  · rename_i chunk fl heq
+    refine Or.inr ?_
+    rw [heq]
+    show some chunk = some c
+    congr 1
+    dsimp only at h
+    repeat' split at h
+    all_goals first | (simp only [Prod.mk.injEq, R.val.injEq, reduceCtorEq, and_false] at h) | skip
+    all_goals exact h.2
+
+/-- **Preservation by `allocate_contiguous_chunks(d, k, head)`** (`k ≥ 1`; `head` = `0` or the current
+head of a list) when it returns `c` (`0` = exhausted): the invariant holds for the oracle's updated
+bookkeeping — in particular the new region `[c, c + k)` lies in the range and is disjoint from every
+allocated region. -/
+theorem inv_allocate {lo hi : Nat} {g : G} {st : St} (hI : Inv lo hi g st) {debug : Bool}
+    {d k head : Nat} {st' : St} {c : Nat} (hk : 1 ≤ k)
+    (hhead : head = 0 ∨ ∃ l ∈ g.lists, l.head? = some head)
+    (h : allocate debug st d k head = (st', .val c)) : Inv lo hi (g.alloc d k head c) st' := by
+  rcases allocate_val debug st st' d k head c h with ⟨_, rfl, rfl⟩ | hsome
+  · unfold G.alloc; rw [if_pos rfl]; exact hI
+  obtain ⟨s, hfree, hks, hflinv, hflmem⟩ := alloc_spec hI.fl hk hsome
+  obtain ⟨hclo, hchi⟩ := hI.fl.free_in _ hfree rfl
+  dsimp only at hclo hchi
+  have hlo := hI.lo_pos
+  have hc : c ≠ 0 := by omega
+  obtain ⟨_, hfl, hav, _, hdesc, hl0, hl1⟩ := allocate_partial debug st st' d k head c h hc
+  have hg : g.alloc d k head c = { regions := ⟨c, k, d⟩ :: g.regions, lists := pushList c head g.lists } := by
+    unfold G.alloc; rw [if_neg hc]
+  obtain ⟨hnd, hmem, hlk, hunl⟩ := hI.links_exact
+  have h0 := hI.zero_not_mem
+  have hdisj : ∀ r' ∈ g.regions, r'.start + r'.size ≤ c ∨ c + s ≤ r'.start := by
+    intro r' hr'
+    rcases hI.fl.eq_or_disj (hI.reg_run r' hr') hfree with e | dd
+    · cases e
+    · exact dd
+  have hcnot : c ∉ g.lists.flatten := by
+    intro m
+    obtain ⟨r', hr', hs⟩ := (hmem c).1 m
+    have := hdisj r' hr'
+    have := (hI.regions_disjoint.2 r' hr').1
+    omega
+  obtain ⟨hnc, hpc⟩ := hunl c hcnot
+  rw [hg]
+  refine ⟨hlo, hfl ▸ hflinv, ?_, ⟨?_, ?_⟩, ⟨?_, ?_⟩, ⟨?_, ?_, ?_, ?_⟩, ?_⟩
+  · intro r' hr'
+    rw [hfl]
+    rcases List.mem_cons.1 hr' with rfl | hr'
+    · exact (hflmem _).2 (Or.inr (Or.inl rfl))
+    · refine (hflmem _).2 (Or.inl ⟨hI.reg_run r' hr', ?_⟩)
+      have := hdisj r' hr'
+      have := (hI.regions_disjoint.2 r' hr').1
+      show r'.start ≠ c
+      omega
+  · show (_ :: _).Pairwise Reg.Disj
+    rw [List.pairwise_cons]
+    refine ⟨?_, hI.regions_disjoint.1⟩
+    intro r' hr'
+    have := hdisj r' hr'
+    unfold Reg.Disj; dsimp only; omega
+  · intro r' hr'
+    rcases List.mem_cons.1 hr' with rfl | hr'
+    · dsimp only; omega
+    · exact hI.regions_disjoint.2 r' hr'
+  · intro r' hr' x hx1 hx2
+    rw [hdesc x]
+    rcases List.mem_cons.1 hr' with rfl | hr'
+    · rw [if_pos ⟨hx1, hx2⟩]
+    · have := hdisj r' hr'
+      rw [if_neg (by omega)]
+      exact hI.descriptor_exact.1 r' hr' x hx1 hx2
+  · intro x hx
+    rw [hdesc x]
+    have hxc := hx ⟨c, k, d⟩ (List.mem_cons_self ..)
+    dsimp only at hxc
+    rw [if_neg hxc]
+    exact hI.descriptor_exact.2 x (fun r' hr' => hx r' (List.mem_cons_of_mem _ hr'))
+  · exact nodup_flatten_pushList hnd hcnot
+  · intro x
+    show x ∈ (pushList c head g.lists).flatten ↔ ∃ r ∈ (⟨c, k, d⟩ : Reg) :: g.regions, r.start = x
+    rw [mem_flatten_pushList, hmem]
+    constructor
+    · rintro (rfl | ⟨r', hr', rfl⟩)
+      · exact ⟨_, List.mem_cons_self .., rfl⟩
+      · exact ⟨r', List.mem_cons_of_mem _ hr', rfl⟩
+    · rintro ⟨r', hr', rfl⟩
+      rcases List.mem_cons.1 hr' with rfl | hr'
+      · exact Or.inl rfl
+      · exact Or.inr ⟨r', hr', rfl⟩
+  · -- linked
+    show ∀ l ∈ pushList c head g.lists, Linked st' 0 l
+    by_cases hh : head = 0
+    · obtain ⟨hn', hp'⟩ := hl0 hh
+      have hno : ∀ l ∈ g.lists, l.head? ≠ some head := by
+        intro l hl e
+        cases l with
+        | nil => cases e
+        | cons b t =>
+          simp at e
+          exact h0 (List.mem_flatten.2 ⟨_, hl, by rw [e, hh]; exact List.mem_cons_self ..⟩)
+      rw [pushList_nohead hno]
+      intro l hl
+      rcases List.mem_append.1 hl with hl | hl
+      · exact Linked.frame (fun a _ => by rw [hn', hp']; exact ⟨rfl, rfl⟩) (hlk l hl)
+      · have : l = [c] := by simpa using hl
+        subst this
+        exact ⟨by rw [hp']; exact hpc, by rw [hn']; exact hnc, trivial⟩
+    · obtain ⟨hn', hp'⟩ := hl1 hh
+      have hex : ∃ l ∈ g.lists, l.head? = some head := by
+        rcases hhead with e | e
+        · exact absurd e hh
+        · exact e
+      exact linked_pushList hn' hp' hpc g.lists hnd hcnot hlk hex
+  · -- unlinked
+    intro x hx
+    have hx' : x ∉ (pushList c head g.lists).flatten := hx
+    rw [mem_flatten_pushList] at hx'
+    have hxc : x ≠ c := fun e => hx' (Or.inl e)
+    have hxf : x ∉ g.lists.flatten := fun m => hx' (Or.inr m)
+    obtain ⟨h1, h2⟩ := hunl x hxf
+    by_cases hh : head = 0
+    · obtain ⟨hn', hp'⟩ := hl0 hh
+      rw [hn', hp']; exact ⟨h1, h2⟩
+    · obtain ⟨hn', hp'⟩ := hl1 hh
+      have hxh : x ≠ head := by
+        rcases hhead with e | ⟨l, hl, hlh⟩
+        · exact absurd e hh
+        · intro e
+          apply hxf
+          refine List.mem_flatten.2 ⟨l, hl, ?_⟩
+          cases l with
+          | nil => cases hlh
+          | cons b t => simp at hlh; rw [e, ← hlh]; exact List.mem_cons_self ..
+      rw [hn', hp']; simp [upd, hxc, hxh, h1, h2]
+  · -- avail
+    show st'.avail + regSum ((⟨c, k, d⟩ : Reg) :: g.regions) = hi - lo
+    have hle : regSum ((⟨c, k, d⟩ : Reg) :: g.regions) ≤ hi - lo := by
+      apply regSum_le
+      · rw [List.pairwise_cons]
+        refine ⟨?_, hI.regions_disjoint.1⟩
+        intro r' hr'
+        have := hdisj r' hr'
+        unfold Reg.Disj; dsimp only; omega
+      · intro r' hr'
+        rcases List.mem_cons.1 hr' with rfl | hr'
+        · dsimp only; omega
+        · exact (hI.regions_disjoint.2 r' hr').2
+    have := hI.avail_exact
+    unfold AvailExact at this
+    simp only [regSum] at hle ⊢
+    omega
+
+/-! ### `free_all_chunks` -/
+
+/-- A strengthening `J` of the invariant that freeing an allocated region preserves (the two loops of
+`free_all_chunks` are proved once, for every such `J`). -/
+structure FreeStable (lo hi : Nat) (debug : Bool) (J : G → St → Prop) : Prop where
+  inv : ∀ {g : G} {st : St}, J g st → Inv lo hi g st
+  free : ∀ {g : G} {st : St} {r : Reg} {st' : St} {n : Nat}, J g st → r ∈ g.regions →
+    freeNoLock debug st r.start = some (st', n) → J (g.free r.start) st'
+
+/-- First loop of `free_all_chunks(c)`: it frees the regions after `c` in `c`'s list. -/
+theorem freeAll_next_loop {lo hi c : Nat} {debug : Bool} {J : G → St → Prop} (hJ : FreeStable lo hi debug J) : ∀ (fuel : Nat) {g : G} {st : St} (l1 l2 : List Nat),
+    J g st → (l1 ++ c :: l2) ∈ g.lists → l2.length ≤ fuel →
+    ∃ st1, freeAllLoop debug (fun s x => s.next x) fuel st c = some st1 ∧
+      J (g.freeSet l2) st1 ∧ (l1 ++ [c]) ∈ (g.freeSet l2).lists
+  | 0, g, st, l1, l2, hJg, hmem, hlen => by
+    have : l2 = [] := List.eq_nil_of_length_eq_zero (Nat.le_zero.1 hlen)
+    subst this
+    exact ⟨st, rfl, by rw [G.freeSet_nil]; exact hJg, by rw [G.freeSet_nil]; exact hmem⟩
+  | fuel + 1, g, st, l1, l2, hJg, hmem, hlen => by
+    have hI := hJ.inv hJg
+    have hlk := hI.links_exact.2.2.1 _ hmem
+    have hnext : st.next c = l2.headD 0 := (Linked.suffix hlk).2.1
+    cases l2 with
+    | nil =>
+      refine ⟨st, ?_, by rw [G.freeSet_nil]; exact hJg, by rw [G.freeSet_nil]; exact hmem⟩
+      rw [freeAllLoop]; simp [hnext]
+    | cons b t2 =>
+      have hbf : b ∈ g.lists.flatten := List.mem_flatten.2 ⟨_, hmem, by simp⟩
+      have hb0 : b ≠ 0 := fun e => hI.zero_not_mem (e ▸ hbf)
+      obtain ⟨rb, hrb, hrbs⟩ := (hI.links_exact.2.1 b).1 hbf
+      subst hrbs
+      obtain ⟨st', n, hfree⟩ := freeNoLock_isSome hI hrb debug
+      have hI' := hJ.free hJg hrb hfree
+      have hnd := nodup_of_mem_flatten hI.links_exact.1 hmem
+      have hmem' : l1 ++ c :: t2 ∈ (g.free rb.start).lists := by
+        rw [G.free_lists, List.mem_map]
+        refine ⟨_, hmem, ?_⟩
+        have e : l1 ++ c :: rb.start :: t2 = (l1 ++ [c]) ++ rb.start :: t2 := by simp
+        rw [e] at hnd ⊢
+        rw [filter_ne_of_nodup hnd]; simp
+      obtain ⟨st1, h1, hI1, hm1⟩ := freeAll_next_loop hJ fuel l1 t2 hI' hmem'
+        (by simpa using hlen)
+      rw [G.free, G.freeSet_freeSet] at hI1 hm1
+      refine ⟨st1, ?_, hI1, hm1⟩
+      rw [freeAllLoop]
+      simp only [hnext, List.headD_cons, bne_iff_ne, ne_eq, hb0, not_false_eq_true, if_true, hfree]
+      exact h1
+
+/-- Second loop of `free_all_chunks(c)`: it frees the regions before `c` in `c`'s list (nearest first). -/
+theorem freeAll_prev_loop {lo hi c : Nat} {debug : Bool} {J : G → St → Prop} (hJ : FreeStable lo hi debug J) : ∀ (fuel : Nat) {g : G} {st : St} (l1r l2 : List Nat),
+    J g st → (l1r.reverse ++ c :: l2) ∈ g.lists → l1r.length ≤ fuel →
+    ∃ st1, freeAllLoop debug (fun s x => s.prev x) fuel st c = some st1 ∧
+      J (g.freeSet l1r) st1 ∧ (c :: l2) ∈ (g.freeSet l1r).lists
+  | 0, g, st, l1r, l2, hJg, hmem, hlen => by
+    have : l1r = [] := List.eq_nil_of_length_eq_zero (Nat.le_zero.1 hlen)
+    subst this
+    exact ⟨st, rfl, by rw [G.freeSet_nil]; exact hJg, by rw [G.freeSet_nil]; simpa using hmem⟩
+  | fuel + 1, g, st, l1r, l2, hJg, hmem, hlen => by
+    have hI := hJ.inv hJg
+    have hlk := hI.links_exact.2.2.1 _ hmem
+    have hprev : st.prev c = l1r.head?.getD 0 := by
+      have := (Linked.suffix hlk).1
+      rw [List.getLast?_reverse] at this; exact this
+    cases l1r with
+    | nil =>
+      refine ⟨st, ?_, by rw [G.freeSet_nil]; exact hJg, by rw [G.freeSet_nil]; simpa using hmem⟩
+      rw [freeAllLoop]; simp [hprev]
+    | cons b t1 =>
+      have hbf : b ∈ g.lists.flatten := List.mem_flatten.2 ⟨_, hmem, by simp⟩
+      have hb0 : b ≠ 0 := fun e => hI.zero_not_mem (e ▸ hbf)
+      obtain ⟨rb, hrb, hrbs⟩ := (hI.links_exact.2.1 b).1 hbf
+      subst hrbs
+      obtain ⟨st', n, hfree⟩ := freeNoLock_isSome hI hrb debug
+      have hI' := hJ.free hJg hrb hfree
+      have hnd := nodup_of_mem_flatten hI.links_exact.1 hmem
+      have hmem' : t1.reverse ++ c :: l2 ∈ (g.free rb.start).lists := by
+        rw [G.free_lists, List.mem_map]
+        refine ⟨_, hmem, ?_⟩
+        have e : (rb.start :: t1).reverse ++ c :: l2 = t1.reverse ++ rb.start :: (c :: l2) := by simp
+        rw [e] at hnd ⊢
+        rw [filter_ne_of_nodup hnd]
+      obtain ⟨st1, h1, hI1, hm1⟩ := freeAll_prev_loop hJ fuel t1 l2 hI' hmem'
+        (by simpa using hlen)
+      rw [G.free, G.freeSet_freeSet] at hI1 hm1
+      refine ⟨st1, ?_, hI1, hm1⟩
+      rw [freeAllLoop]
+      simp only [hprev, List.head?_cons, Option.getD_some, bne_iff_ne, ne_eq, hb0, not_false_eq_true,
+        if_true, hfree]
+      exact h1
+
+/-- `g.freeAll c` frees the list that contains `c`. -/
+theorem G.freeAll_eq {lo hi : Nat} {g : G} {st : St} (hI : Inv lo hi g st) {c : Nat} {l : List Nat}
+    (hl : l ∈ g.lists) (hc : c ∈ l) : g.freeAll c = g.freeSet l := by
+  unfold G.freeAll
+  cases hf : g.lists.find? (fun l => l.contains c) with
+  | none =>
+    rw [List.find?_eq_none] at hf
+    have := hf l hl
+    simp [hc] at this
+  | some l' =>
+    have hl' := List.mem_of_find?_eq_some hf
+    have hc' : c ∈ l' := by simpa using List.find?_some hf
+    have : l' = l := by
+      apply Classical.byContradiction
+      intro hne
+      exact disjoint_of_nodup_flatten hI.links_exact.1 hl' hl hne hc' hc
+    rw [this]; rfl
+
+theorem G.freeAll_zero {lo hi : Nat} {g : G} {st : St} (hI : Inv lo hi g st) : g.freeAll 0 = g := by
+  unfold G.freeAll
+  cases hf : g.lists.find? (fun l => l.contains 0) with
+  | none => exact G.freeSet_nil g
+  | some l' =>
+    have hl' := List.mem_of_find?_eq_some hf
+    have hc' : 0 ∈ l' := by simpa using List.find?_some hf
+    exact absurd (List.mem_flatten.2 ⟨l', hl', hc'⟩) hI.zero_not_mem
+
+/-- `free_all_chunks(c)` (`c = 0`, or `c` in a list of at most `fuel + 1` regions) does not hit an
+assertion and re-establishes the invariant for the bookkeeping without the whole list of `c`. -/
+theorem freeAll_spec_gen {lo hi : Nat} {debug : Bool} {J : G → St → Prop} (hJ : FreeStable lo hi debug J)
+    {g : G} {st : St} (hJg : J g st) {c fuel : Nat}
+    (hc : c = 0 ∨ ∃ l ∈ g.lists, c ∈ l ∧ l.length ≤ fuel + 1) :
+    ∃ st', freeAll debug st c fuel = some st' ∧ J (g.freeAll c) st' := by
+  have hI := hJ.inv hJg
+  by_cases hc0 : c = 0
+  · subst hc0
+    exact ⟨st, by simp [freeAll], by rw [G.freeAll_zero hI]; exact hJg⟩
+  rcases hc with e | ⟨l, hl, hcl, hlen⟩
+  · exact absurd e hc0
+  obtain ⟨l1, l2, rfl⟩ := List.append_of_mem hcl
+  have hlen' : l1.length + l2.length ≤ fuel := by
+    simp only [List.length_append, List.length_cons] at hlen; omega
+  obtain ⟨st1, h1, hI1, hm1⟩ := freeAll_next_loop hJ fuel l1 l2 hJg hl (by omega)
+  obtain ⟨st2, h2, hI2, hm2⟩ := freeAll_prev_loop hJ fuel l1.reverse [] hI1
+    (by rw [List.reverse_reverse]; exact hm1) (by rw [List.length_reverse]; omega)
+  have hcf : c ∈ ((g.freeSet l2).freeSet l1.reverse).lists.flatten :=
+    List.mem_flatten.2 ⟨_, hm2, List.mem_cons_self ..⟩
+  obtain ⟨rc, hrc, hrcs⟩ := ((hJ.inv hI2).links_exact.2.1 c).1 hcf
+  subst hrcs
+  obtain ⟨st3, n, h3⟩ := freeNoLock_isSome (hJ.inv hI2) hrc debug
+  have hI3 := hJ.free hI2 hrc h3
+  refine ⟨st3, ?_, ?_⟩
+  · unfold freeAll
+    have : (rc.start == 0) = false := by simpa using hc0
+    simp only [this, Bool.false_eq_true, if_false, h1, h2, h3, Option.map_some]
+  · rw [G.freeAll_eq hI hl hcl]
+    rw [G.free, G.freeSet_freeSet, G.freeSet_freeSet] at hI3
+    rw [G.freeSet_congr g (S := l1 ++ rc.start :: l2) (T := l2 ++ (l1.reverse ++ [rc.start]))]
+    · exact hI3
+    · intro x; simp only [List.mem_append, List.mem_cons, List.mem_reverse, List.not_mem_nil, or_false]
+      constructor
+      · rintro (h | h | h)
+        · exact Or.inr (Or.inl h)
+        · exact Or.inr (Or.inr h)
+        · exact Or.inl h
+      · rintro (h | h | h)
+        · exact Or.inr (Or.inr h)
+        · exact Or.inl h
+        · exact Or.inr (Or.inl h)
+
+theorem inv_freeStable (lo hi : Nat) (debug : Bool) : FreeStable lo hi debug (Inv lo hi) :=
+  ⟨fun h => h, fun h hr hf => (inv_free h hr hf).2⟩
+
+theorem freeAll_spec {lo hi : Nat} {g : G} {st : St} (hI : Inv lo hi g st) {debug : Bool} {c fuel : Nat}
+    (hc : c = 0 ∨ ∃ l ∈ g.lists, c ∈ l ∧ l.length ≤ fuel + 1) :
+    ∃ st', freeAll debug st c fuel = some st' ∧ Inv lo hi (g.freeAll c) st' :=
+  freeAll_spec_gen (inv_freeStable lo hi debug) hI hc
+
+/-- **Preservation by `free_all_chunks(c)`**. -/
+theorem inv_freeAll {lo hi : Nat} {g : G} {st : St} (hI : Inv lo hi g st) {debug : Bool} {c fuel : Nat}
+    (hc : c = 0 ∨ ∃ l ∈ g.lists, c ∈ l ∧ l.length ≤ fuel + 1) {st' : St}
+    (h : freeAll debug st c fuel = some st') : Inv lo hi (g.freeAll c) st' := by
+  obtain ⟨st'', h', hI'⟩ := freeAll_spec hI (debug := debug) hc
+  rw [h] at h'
+  cases h'
+  exact hI'
+
+/-- Under the invariant, `allocate_contiguous_chunks` (with `k ≥ 1` and `head` = `0` or a list head)
+hits none of its assertions. -/
+theorem allocate_ok {lo hi : Nat} {g : G} {st : St} (hI : Inv lo hi g st) (debug : Bool)
+    (d : Nat) {k head : Nat} (hk : 1 ≤ k) (hhead : head = 0 ∨ ∃ l ∈ g.lists, l.head? = some head) :
+    ∃ c, (allocate debug st d k head).2 = R.val c := by
+  cases hal : st.fl.alloc k with
+  | mk o fl' =>
+  cases o with
+  | none => exact ⟨0, by unfold allocate; rw [hal]⟩
+  | some chunk =>
+    have hsome : (st.fl.alloc k).1 = some chunk := by rw [hal]
+    obtain ⟨s, hfree, hks, _, _⟩ := alloc_spec hI.fl hk hsome
+    obtain ⟨hclo, hchi⟩ := hI.fl.free_in _ hfree rfl
+    dsimp only at hclo hchi
+    have hlo := hI.lo_pos
+    obtain ⟨hnd, hmem, hlk, hunl⟩ := hI.links_exact
+    have hdisj : ∀ r' ∈ g.regions, r'.start + r'.size ≤ chunk ∨ chunk + s ≤ r'.start := by
+      intro r' hr'
+      rcases hI.fl.eq_or_disj (hI.reg_run r' hr') hfree with e | dd
+      · cases e
+      · exact dd
+    have hcnot : chunk ∉ g.lists.flatten := by
+      intro m
+      obtain ⟨r', hr', hs⟩ := (hmem chunk).1 m
+      have := hdisj r' hr'
+      have := (hI.regions_disjoint.2 r' hr').1
+      omega
+    obtain ⟨hnc, hpc⟩ := hunl chunk hcnot
+    have hc0 : (chunk == 0) = false := by simp; omega
+    have hany : ((List.range' chunk k).any fun c => st.desc c != 0) = false := by
+      rw [List.any_eq_false]
+      intro x hx
+      rw [List.mem_range'_1] at hx
+      have : st.desc x = 0 := by
+        apply hI.descriptor_exact.2
+        intro r' hr' hin
+        have := hdisj r' hr'
+        omega
+      simp [this]
+    refine ⟨chunk, ?_⟩
+    unfold allocate
+    rw [hal]
+    by_cases hh : head = 0
+    · simp [hc0, hany, hh, hnc, hpc]
+    · have hne : chunk ≠ head := by
+        rcases hhead with e | ⟨l, hl, hlh⟩
+        · exact absurd e hh
+        · intro e
+          apply hcnot
+          refine List.mem_flatten.2 ⟨l, hl, ?_⟩
+          cases l with
+          | nil => cases hlh
+          | cons b t => simp at hlh; rw [e, ← hlh]; exact List.mem_cons_self ..
+      simp [hc0, hany, hh, upd, hne, hpc]
+/-! ### The initial state -/
+
+/-- **The finalised state satisfies the invariant** (no region handed out yet), for every
+`finalize_static_space_map(first, last)` with `0 < first ≤ last < maxChunks`. -/
+theorem inv_init {M first last : Nat} (h1 : 0 < first) (h2 : first ≤ last) (h3 : last < M) :
+    Inv first (last + 1) {} (finalize M first last) := by
+  refine ⟨h1, (finalize_fl h1 h2 h3).1, ?_, ⟨?_, ?_⟩, ⟨?_, ?_⟩, ⟨?_, ?_, ?_, ?_⟩, ?_⟩
+  · intro r hr; cases hr
+  · exact List.Pairwise.nil
+  · intro r hr; cases hr
+  · intro r hr; cases hr
+  · intro x _; rfl
+  · exact List.Pairwise.nil
+  · intro c
+    constructor
+    · intro h; cases h
+    · rintro ⟨r, hr, _⟩; cases hr
+  · intro l hl; cases hl
+  · intro c _; exact ⟨rfl, rfl⟩
+  · show (finalize M first last).avail + 0 = last + 1 - first
+    rfl
+
+/-! ### Histories -/
+
+/-- The three operations of C29. -/
+inductive Op
+  /-- `allocate_contiguous_chunks(descriptor, chunks, head)` -/
+  | alloc (d k head : Nat)
+  /-- `free_contiguous_chunks(start)` -/
+  | free (c : Nat)
+  /-- `free_all_chunks(any_chunk)` -/
+  | freeAll (c : Nat)
+deriving Repr, DecidableEq
+
+/-- The callers' protocol (what the generator of `checks/C29.py` respects): at least one chunk is
+requested and `head` is `0` or the current head of a region list; only allocated regions are freed;
+`free_all_chunks` gets `0` or a region of a list (of at most 4097 regions: the model's loops have
+4096 units of fuel each — the code's loops are unbounded). -/
+def Pre (g : G) : Op → Prop
+  | .alloc _ k head => 1 ≤ k ∧ (head = 0 ∨ ∃ l ∈ g.lists, l.head? = some head)
+  | .free c => ∃ r ∈ g.regions, r.start = c
+  | .freeAll c => c = 0 ∨ ∃ l ∈ g.lists, c ∈ l ∧ l.length ≤ 4096 + 1
+
+/-- One operation on the model together with the oracle's bookkeeping; `none` = panic. -/
+def step (debug : Bool) (g : G) (st : St) : Op → Option (G × St)
+  | .alloc d k head =>
+    match allocate debug st d k head with
+    | (st', .val c) => some (g.alloc d k head c, st')
+    | _ => none
+  | .free c =>
+    match freeNoLock debug st c with
+    | some (st', _) => some (g.free c, st')
+    | none => none
+  | .freeAll c =>
+    match freeAll debug st c with
+    | some st' => some (g.freeAll c, st')
+    | none => none
+
+/-- Run a history; `none` as soon as an operation panics. -/
+def run (debug : Bool) : G → St → List Op → Option (G × St)
+  | g, st, [] => some (g, st)
+  | g, st, op :: ops =>
+    match step debug g st op with
+    | none => none
+    | some (g', st') => run debug g' st' ops
+
+/-- Every operation of the history respects the protocol in the state it is applied to. -/
+def Valid (debug : Bool) : G → St → List Op → Prop
+  | _, _, [] => True
+  | g, st, op :: ops =>
+    Pre g op ∧ match step debug g st op with
+      | none => True
+      | some (g', st') => Valid debug g' st' ops
+
+/-- One protocol-respecting operation preserves the invariant. -/
+theorem inv_step {lo hi : Nat} {g : G} {st : St} (hI : Inv lo hi g st) {debug : Bool} {op : Op}
+    (hpre : Pre g op) {g' : G} {st' : St} (h : step debug g st op = some (g', st')) : Inv lo hi g' st' := by
+  cases op with
+  | alloc d k head =>
+    simp only [step] at h
+    split at h
+    · rename_i st'' c heq
+      simp only [Option.some.injEq, Prod.mk.injEq] at h
+      obtain ⟨rfl, rfl⟩ := h
+      exact inv_allocate hI hpre.1 hpre.2 heq
+    · cases h
+  | free c =>
+    obtain ⟨r, hr, rfl⟩ := hpre
+    simp only [step] at h
+    split at h
+    · rename_i st'' n heq
+      simp only [Option.some.injEq, Prod.mk.injEq] at h
+      obtain ⟨rfl, rfl⟩ := h
+      exact (inv_free hI hr heq).2
+    · cases h
+  | freeAll c =>
+    simp only [step] at h
+    split at h
+    · rename_i st'' heq
+      simp only [Option.some.injEq, Prod.mk.injEq] at h
+      obtain ⟨rfl, rfl⟩ := h
+      exact inv_freeAll hI hpre heq
+    · cases h
+
+/-- Under the invariant a protocol-respecting operation does not panic (no assertion of
+`allocate_contiguous_chunks` / `free_contiguous_chunks_no_lock` fires), in debug and release. -/
+theorem step_isSome {lo hi : Nat} {g : G} {st : St} (hI : Inv lo hi g st) (debug : Bool) {op : Op}
+    (hpre : Pre g op) : ∃ g' st', step debug g st op = some (g', st') := by
+  cases op with
+  | alloc d k head =>
+    obtain ⟨c, hc⟩ := allocate_ok hI debug d hpre.1 hpre.2
+    simp only [step]
+    cases hal : allocate debug st d k head with
+    | mk st' r =>
+      rw [hal] at hc
+      dsimp only at hc
+      subst hc
+      exact ⟨_, _, rfl⟩
+  | free c =>
+    obtain ⟨r, hr, rfl⟩ := hpre
+    obtain ⟨st', n, h⟩ := freeNoLock_isSome hI hr debug
+    simp only [step]
+    rw [h]
+    exact ⟨_, _, rfl⟩
+  | freeAll c =>
+    obtain ⟨st', h, _⟩ := freeAll_spec hI (debug := debug) hpre
+    simp only [step]
+    rw [h]
+    exact ⟨_, _, rfl⟩
+
+/-- **The history invariant** (induction over the operation list): the invariant holds after every
+protocol-respecting history of `allocate_contiguous_chunks` / `free_contiguous_chunks` /
+`free_all_chunks`. -/
+theorem history_inv {lo hi : Nat} {debug : Bool} : ∀ (ops : List Op) {g : G} {st : St}, Inv lo hi g st →
+    Valid debug g st ops → ∀ {g' : G} {st' : St}, run debug g st ops = some (g', st') → Inv lo hi g' st'
+  | [], g, st, hI, _, g', st', h => by
+    simp only [run, Option.some.injEq, Prod.mk.injEq] at h
+    obtain ⟨rfl, rfl⟩ := h
+    exact hI
+  | op :: ops, g, st, hI, hv, g', st', h => by
+    obtain ⟨hpre, hrest⟩ := hv
+    obtain ⟨g1, st1, hs⟩ := step_isSome hI debug hpre
+    rw [hs] at hrest
+    rw [run, hs] at h
+    exact history_inv ops (inv_step hI hpre hs) hrest h
+
+/-- A protocol-respecting history never panics. -/
+theorem history_no_panic {lo hi : Nat} {debug : Bool} : ∀ (ops : List Op) {g : G} {st : St}, Inv lo hi g st →
+    Valid debug g st ops → ∃ g' st', run debug g st ops = some (g', st')
+  | [], g, st, _, _ => ⟨g, st, rfl⟩
+  | op :: ops, g, st, hI, hv => by
+    obtain ⟨hpre, hrest⟩ := hv
+    obtain ⟨g1, st1, hs⟩ := step_isSome hI debug hpre
+    rw [hs] at hrest
+    rw [run, hs]
+    exact history_no_panic ops (inv_step hI hpre hs) hrest
+
+/-- **C29**: after any protocol-respecting history from the finalised state the invariant
+`regions_disjoint ∧ descriptor_exact ∧ links_exact ∧ avail_exact` holds. -/
+theorem history_inv_init {M first last : Nat} (h1 : 0 < first) (h2 : first ≤ last) (h3 : last < M)
+    {debug : Bool} {ops : List Op} (hv : Valid debug {} (finalize M first last) ops) {g : G} {st : St}
+    (hr : run debug {} (finalize M first last) ops = some (g, st)) : Inv first (last + 1) g st :=
+  history_inv ops (inv_init h1 h2 h3) hv hr
+
+/-- The regions handed out and not yet freed are non-empty, inside the range and pairwise disjoint. -/
+theorem history_regions_disjoint {M first last : Nat} (h1 : 0 < first) (h2 : first ≤ last) (h3 : last < M)
+    {debug : Bool} {ops : List Op} (hv : Valid debug {} (finalize M first last) ops) {g : G} {st : St}
+    (hr : run debug {} (finalize M first last) ops = some (g, st)) :
+    g.regions.Pairwise Reg.Disj ∧
+    ∀ r ∈ g.regions, 0 < r.size ∧ first ≤ r.start ∧ r.start + r.size ≤ last + 1 :=
+  (history_inv_init h1 h2 h3 hv hr).regions_disjoint
+
+/-- The descriptor map says exactly which space owns each chunk. -/
+theorem history_descriptor_exact {M first last : Nat} (h1 : 0 < first) (h2 : first ≤ last) (h3 : last < M)
+    {debug : Bool} {ops : List Op} (hv : Valid debug {} (finalize M first last) ops) {g : G} {st : St}
+    (hr : run debug {} (finalize M first last) ops = some (g, st)) :
+    (∀ r ∈ g.regions, ∀ x, r.start ≤ x → x < r.start + r.size → st.desc x = r.desc) ∧
+    (∀ x, (∀ r ∈ g.regions, ¬ (r.start ≤ x ∧ x < r.start + r.size)) → st.desc x = 0) :=
+  (history_inv_init h1 h2 h3 hv hr).descriptor_exact
+
+/-- The `prev`/`next` links of each space's region list are exact; `get_contiguous_region_chunks` of
+every allocated region is its size. -/
+theorem history_links_exact {M first last : Nat} (h1 : 0 < first) (h2 : first ≤ last) (h3 : last < M)
+    {debug : Bool} {ops : List Op} (hv : Valid debug {} (finalize M first last) ops) {g : G} {st : St}
+    (hr : run debug {} (finalize M first last) ops = some (g, st)) :
+    g.lists.flatten.Nodup ∧ (∀ c, c ∈ g.lists.flatten ↔ ∃ r ∈ g.regions, r.start = c) ∧
+    (∀ l ∈ g.lists, Linked st 0 l) ∧ (∀ c, c ∉ g.lists.flatten → st.next c = 0 ∧ st.prev c = 0) ∧
+    (∀ r ∈ g.regions, regionChunks st r.start = r.size) := by
+  have hI := history_inv_init h1 h2 h3 hv hr
+  obtain ⟨a, b, c, d⟩ := hI.links_exact
+  exact ⟨a, b, c, d, fun r hr => hI.region_chunks hr⟩
+
+/-- The available-chunk count is exact. -/
+theorem history_avail_exact {M first last : Nat} (h1 : 0 < first) (h2 : first ≤ last) (h3 : last < M)
+    {debug : Bool} {ops : List Op} (hv : Valid debug {} (finalize M first last) ops) {g : G} {st : St}
+    (hr : run debug {} (finalize M first last) ops = some (g, st)) :
+    st.avail + regSum g.regions = last + 1 - first :=
+  (history_inv_init h1 h2 h3 hv hr).avail_exact
+
+/-- What `Linked` means for a walk: following `next` from the head of a list visits exactly the list. -/
+def walk (st : St) : Nat → Nat → List Nat
+  | 0, _ => []
+  | fuel + 1, c => if c = 0 then [] else c :: walk st fuel (nextRegion st c)
+
+theorem walk_linked {st : St} : ∀ (l : List Nat) (p : Nat) (fuel : Nat), Linked st p l → 0 ∉ l →
+    l.length ≤ fuel → walk st fuel (l.headD 0) = l
+  | [], _, fuel, _, _, _ => by cases fuel <;> simp [walk]
+  | a :: t, p, 0, _, _, hlen => by simp at hlen
+  | a :: t, p, fuel + 1, h, h0, hlen => by
+    have ha : a ≠ 0 := fun e => h0 (e ▸ List.mem_cons_self ..)
+    have ht : 0 ∉ t := fun m => h0 (List.mem_cons_of_mem _ m)
+    have ih := walk_linked t a fuel h.2.2 ht (by simpa using hlen)
+    have hnr : nextRegion st a = t.headD 0 := by
+      unfold nextRegion
+      rw [h.2.1]
+      generalize t.headD 0 = v
+      by_cases e : v = 0
+      · subst e; simp
+      · simp [ha, e]
+    simp only [List.headD_cons, walk, ha, if_false, hnr, ih]
+
+/-- `links_exact` as the oracle checks it: walking `get_next_contiguous_region` from the head of a
+space's list visits exactly the allocated regions of that space, in order, once. -/
+theorem history_walk {M first last : Nat} (h1 : 0 < first) (h2 : first ≤ last) (h3 : last < M)
+    {debug : Bool} {ops : List Op} (hv : Valid debug {} (finalize M first last) ops) {g : G} {st : St}
+    (hr : run debug {} (finalize M first last) ops = some (g, st)) {l : List Nat} (hl : l ∈ g.lists)
+    {fuel : Nat} (hf : l.length ≤ fuel) : walk st fuel (l.headD 0) = l := by
+  have hI := history_inv_init h1 h2 h3 hv hr
+  exact walk_linked l 0 fuel (hI.links_exact.2.2.1 l hl)
+    (fun m => hI.zero_not_mem (List.mem_flatten.2 ⟨l, hl, m⟩)) hf
+
+/-! ### Exactness of a failed allocation (the oracle's `map32:alloc-fails` check) -/
+
+/-- The extended invariant: `Inv`, the runs of the region map cover `[lo, hi)`, no two free runs
+are adjacent (free always coalesces), and every allocated run that meets `[lo, hi)` is a region. -/
+structure InvX (lo hi : Nat) (g : G) (st : St) : Prop where
+  inv : Inv lo hi g st
+  full : FLFull lo hi st.fl
+  run_reg : ∀ r ∈ st.fl.runs, r.free = false → r.start + r.size ≤ lo ∨ hi ≤ r.start ∨
+    ∃ reg ∈ g.regions, reg.start = r.start ∧ reg.size = r.size
+
+theorem invX_init {M first last : Nat} (h1 : 0 < first) (h2 : first ≤ last) (h3 : last < M) :
+    InvX first (last + 1) {} (finalize M first last) := by
+  obtain ⟨hinv, honly, hF⟩ := finalize_fl h1 h2 h3
+  refine ⟨inv_init h1 h2 h3, ⟨?_, ?_⟩, ?_⟩
+  · intro x hx1 hx2
+    exact ⟨_, hF, hx1, by dsimp only; omega⟩
+  · intro a ha b hb haf hbf
+    rw [honly a ha haf, honly b hb hbf]; dsimp only; omega
+  · intro r hr hrf
+    rcases hinv.eq_or_disj hr hF with e | d
+    · rw [e] at hrf; cases hrf
+    · unfold Disj at d; dsimp only at d
+      rcases d with d | d
+      · exact Or.inl d
+      · exact Or.inr (Or.inl (by omega))
+
+theorem invX_free {lo hi : Nat} {g : G} {st : St} (hX : InvX lo hi g st) {r : Reg} (hr : r ∈ g.regions)
+    {debug : Bool} {st' : St} {n : Nat} (h : freeNoLock debug st r.start = some (st', n)) :
+    InvX lo hi (g.free r.start) st' := by
+  have hI := hX.inv
+  have hrun := hI.reg_run r hr
+  obtain ⟨_, hrlo, hrhi⟩ := hI.regions_disjoint.2 r hr
+  obtain ⟨_, _, hflmem⟩ := freeRun_spec hI.fl hrun hrlo hrhi
+  have hfl := freeNoLock_fl debug st st' r.start n h
+  refine ⟨(inv_free hI hr h).2, hfl ▸ freeRun_full hI.fl hX.full hrun, ?_⟩
+  intro r' hr' hrf'
+  rw [hfl] at hr'
+  obtain ⟨hr0, hne⟩ := (hflmem r' hrf').1 hr'
+  rcases hX.run_reg r' hr0 hrf' with o | o | ⟨reg, hreg, hs, hz⟩
+  · exact Or.inl o
+  · exact Or.inr (Or.inl o)
+  · refine Or.inr (Or.inr ⟨reg, ?_, hs, hz⟩)
+    rw [G.free_regions, List.mem_filter]
+    exact ⟨hreg, by simpa [hs] using hne⟩
+
+theorem invX_allocate {lo hi : Nat} {g : G} {st : St} (hX : InvX lo hi g st) {debug : Bool}
+    {d k head : Nat} {st' : St} {c : Nat} (hk : 1 ≤ k)
+    (hhead : head = 0 ∨ ∃ l ∈ g.lists, l.head? = some head)
+    (h : allocate debug st d k head = (st', .val c)) : InvX lo hi (g.alloc d k head c) st' := by
+  have hI := hX.inv
+  have hI' := inv_allocate hI hk hhead h
+  rcases allocate_val debug st st' d k head c h with ⟨_, rfl, rfl⟩ | hsome
+  · unfold G.alloc; rw [if_pos rfl]; exact hX
+  obtain ⟨s, hfree, hks, _, hflmem⟩ := alloc_spec hI.fl hk hsome
+  obtain ⟨hclo, _⟩ := hI.fl.free_in _ hfree rfl
+  dsimp only at hclo
+  have hlo := hI.lo_pos
+  have hc : c ≠ 0 := by omega
+  obtain ⟨_, hfl, _⟩ := allocate_partial debug st st' d k head c h hc
+  have hg : g.alloc d k head c = { regions := ⟨c, k, d⟩ :: g.regions, lists := pushList c head g.lists } := by
+    unfold G.alloc; rw [if_neg hc]
+  refine ⟨hI', hfl ▸ alloc_full hI.fl hX.full hk hsome, ?_⟩
+  intro r' hr' hrf'
+  rw [hfl] at hr'
+  rw [hg]
+  rcases (hflmem r').1 hr' with ⟨hr0, _⟩ | rfl | ⟨_, rfl⟩
+  · rcases hX.run_reg r' hr0 hrf' with o | o | ⟨reg, hreg, hs, hz⟩
+    · exact Or.inl o
+    · exact Or.inr (Or.inl o)
+    · exact Or.inr (Or.inr ⟨reg, List.mem_cons_of_mem _ hreg, hs, hz⟩)
+  · exact Or.inr (Or.inr ⟨⟨c, k, d⟩, List.mem_cons_self .., rfl, rfl⟩)
+  · cases hrf'
+
+theorem invX_freeStable (lo hi : Nat) (debug : Bool) : FreeStable lo hi debug (InvX lo hi) :=
+  ⟨fun h => h.inv, fun h hr hf => invX_free h hr hf⟩
+
+theorem invX_freeAll {lo hi : Nat} {g : G} {st : St} (hX : InvX lo hi g st) {debug : Bool} {c fuel : Nat}
+    (hc : c = 0 ∨ ∃ l ∈ g.lists, c ∈ l ∧ l.length ≤ fuel + 1) {st' : St}
+    (h : freeAll debug st c fuel = some st') : InvX lo hi (g.freeAll c) st' := by
+  obtain ⟨st'', h', hX'⟩ := freeAll_spec_gen (invX_freeStable lo hi debug) hX hc
+  rw [h] at h'
+  cases h'
+  exact hX'
+
+theorem invX_step {lo hi : Nat} {g : G} {st : St} (hX : InvX lo hi g st) {debug : Bool} {op : Op}
+    (hpre : Pre g op) {g' : G} {st' : St} (h : step debug g st op = some (g', st')) : InvX lo hi g' st' := by
+  cases op with
+  | alloc d k head =>
+    simp only [step] at h
+    split at h
+    · rename_i st'' c heq
+      simp only [Option.some.injEq, Prod.mk.injEq] at h
+      obtain ⟨rfl, rfl⟩ := h
+      exact invX_allocate hX hpre.1 hpre.2 heq
+    · cases h
+  | free c =>
+    obtain ⟨r, hr, rfl⟩ := hpre
+    simp only [step] at h
+    split at h
+    · rename_i st'' n heq
+      simp only [Option.some.injEq, Prod.mk.injEq] at h
+      obtain ⟨rfl, rfl⟩ := h
+      exact invX_free hX hr heq
+    · cases h
+  | freeAll c =>
+    simp only [step] at h
+    split at h
+    · rename_i st'' heq
+      simp only [Option.some.injEq, Prod.mk.injEq] at h
+      obtain ⟨rfl, rfl⟩ := h
+      exact invX_freeAll hX hpre heq
+    · cases h
+
+theorem history_invX {lo hi : Nat} {debug : Bool} : ∀ (ops : List Op) {g : G} {st : St}, InvX lo hi g st →
+    Valid debug g st ops → ∀ {g' : G} {st' : St}, run debug g st ops = some (g', st') → InvX lo hi g' st'
+  | [], g, st, hX, _, g', st', h => by
+    simp only [run, Option.some.injEq, Prod.mk.injEq] at h
+    obtain ⟨rfl, rfl⟩ := h
+    exact hX
+  | op :: ops, g, st, hX, hv, g', st', h => by
+    obtain ⟨hpre, hrest⟩ := hv
+    obtain ⟨g1, st1, hs⟩ := step_isSome hX.inv debug hpre
+    rw [hs] at hrest
+    rw [run, hs] at h
+    exact history_invX ops (invX_step hX hpre hs) hrest h
+
+/-- `k` consecutive chunks of `[lo, hi)` none of which is allocated lie in one free run. -/
+theorem InvX.free_span {lo hi : Nat} {g : G} {st : St} (hX : InvX lo hi g st) {a : Nat} (hlo : lo ≤ a) :
+    ∀ j, 1 ≤ j → a + j ≤ hi →
+      (∀ x, a ≤ x → x < a + j → ∀ reg ∈ g.regions, ¬ (reg.start ≤ x ∧ x < reg.start + reg.size)) →
+      ∃ r ∈ st.fl.runs, r.free = true ∧ r.start ≤ a ∧ a + j ≤ r.start + r.size := by
+  -- the run that covers an unallocated chunk of the range is free
+  have hfreeAt : ∀ x, lo ≤ x → x < hi →
+      (∀ reg ∈ g.regions, ¬ (reg.start ≤ x ∧ x < reg.start + reg.size)) →
+      ∃ r ∈ st.fl.runs, r.free = true ∧ r.start ≤ x ∧ x < r.start + r.size := by
+    intro x hx1 hx2 hun
+    obtain ⟨r, hr, hr1, hr2⟩ := hX.full.cover x hx1 hx2
+    refine ⟨r, hr, ?_, hr1, hr2⟩
+    cases hrf : r.free with
+    | true => rfl
+    | false =>
+      rcases hX.run_reg r hr hrf with o | o | ⟨reg, hreg, hs, hz⟩
+      · omega
+      · omega
+      · exact absurd ⟨by omega, by omega⟩ (hun reg hreg)
+  intro j
+  induction j with
+  | zero => intro h; omega
+  | succ j ih =>
+    intro _ hhi hun
+    by_cases hj : j = 0
+    · subst hj
+      obtain ⟨r, hr, hrf, hr1, hr2⟩ := hfreeAt a hlo (by omega) (hun a (Nat.le_refl _) (by omega))
+      exact ⟨r, hr, hrf, hr1, by omega⟩
+    · obtain ⟨r, hr, hrf, hr1, hr2⟩ := ih (by omega) (by omega) (fun x h1 h2 => hun x h1 (by omega))
+      by_cases hin : a + j < r.start + r.size
+      · exact ⟨r, hr, hrf, hr1, by omega⟩
+      · obtain ⟨r2, hr2m, hr2f, hr21, hr22⟩ := hfreeAt (a + j) (by omega) (by omega)
+          (hun (a + j) (by omega) (by omega))
+        rcases hX.inv.fl.eq_or_disj hr hr2m with e | dd
+        · subst e; omega
+        · unfold Disj at dd
+          exact absurd (by omega) (hX.full.maximal r hr r2 hr2m hrf hr2f)
+
+/-- **`allocate_contiguous_chunks` returns `0` only when it must**: after a `0` result there is no
+window of `k` consecutive chunks of the range that are all unallocated. -/
+theorem alloc_fails_exact {lo hi : Nat} {g : G} {st : St} (hX : InvX lo hi g st) {debug : Bool}
+    {d k head : Nat} {st' : St} (hk : 1 ≤ k) (h : allocate debug st d k head = (st', .val 0)) :
+    ¬ ∃ a, lo ≤ a ∧ a + k ≤ hi ∧
+      ∀ x, a ≤ x → x < a + k → ∀ reg ∈ g.regions, ¬ (reg.start ≤ x ∧ x < reg.start + reg.size) := by
+  rintro ⟨a, hlo, hhi, hun⟩
+  have hI := hX.inv
+  have hnone : (st.fl.alloc k).1 = none := by
+    rcases allocate_val debug st st' d k head 0 h with ⟨hn, _, _⟩ | hsome
+    · exact hn
+    · obtain ⟨s, hfree, _, _, _⟩ := alloc_spec hI.fl hk hsome
+      have := (hI.fl.free_in _ hfree rfl).1
+      have := hI.lo_pos
+      dsimp only at *; omega
+  obtain ⟨r, hr, hrf, hr1, hr2⟩ := hX.free_span hlo k hk hhi hun
+  have := (alloc_none_iff hI.fl).1 hnone r hr hrf
+  omega
+
+/-- The same from the finalised state, for every protocol-respecting history. -/
+theorem history_alloc_fails_exact {M first last : Nat} (h1 : 0 < first) (h2 : first ≤ last) (h3 : last < M)
+    {debug : Bool} {ops : List Op} (hv : Valid debug {} (finalize M first last) ops) {g : G} {st : St}
+    (hr : run debug {} (finalize M first last) ops = some (g, st))
+    {d k head : Nat} {st' : St} (hk : 1 ≤ k) (h : allocate debug st d k head = (st', .val 0)) :
+    ¬ ∃ a, first ≤ a ∧ a + k ≤ last + 1 ∧
+      ∀ x, a ≤ x → x < a + k → ∀ reg ∈ g.regions, ¬ (reg.start ≤ x ∧ x < reg.start + reg.size) :=
+  alloc_fails_exact (history_invX ops (invX_init h1 h2 h3) hv hr) hk h
+
+/-! ### The hypotheses are satisfiable: a concrete history -/
+
+instance instDecidablePre (g : G) : (op : Op) → Decidable (Pre g op)
+  | .alloc _ k head => inferInstanceAs (Decidable (1 ≤ k ∧ (head = 0 ∨ ∃ l ∈ g.lists, l.head? = some head)))
+  | .free c => inferInstanceAs (Decidable (∃ r ∈ g.regions, r.start = c))
+  | .freeAll c => inferInstanceAs (Decidable (c = 0 ∨ ∃ l ∈ g.lists, c ∈ l ∧ l.length ≤ 4096 + 1))
+
+/-- Executable version of `Valid`. -/
+def validB (debug : Bool) : G → St → List Op → Bool
+  | _, _, [] => true
+  | g, st, op :: ops =>
+    decide (Pre g op) && match step debug g st op with
+      | none => true
+      | some (g', st') => validB debug g' st' ops
+
+theorem valid_of_validB {debug : Bool} : ∀ (ops : List Op) {g : G} {st : St},
+    validB debug g st ops = true → Valid debug g st ops
+  | [], _, _, _ => trivial
+  | op :: ops, g, st, h => by
+    simp only [validB, Bool.and_eq_true, decide_eq_true_eq] at h
+    refine ⟨h.1, ?_⟩
+    cases hs : step debug g st op with
+    | none => trivial
+    | some p =>
+      obtain ⟨g', st'⟩ := p
+      rw [hs] at h
+      exact valid_of_validB ops h.2
+
+/-- A history on the range `[2, 10)` of a 12-chunk map, two spaces (descriptors 4 and 8): pushes on
+both lists, a free of a middle region, re-use of the freed chunks, `free_all_chunks` from the tail of a
+list, an exhausted allocation, and an allocation after it. -/
+def exOps : List Op :=
+  [.alloc 4 3 0, .alloc 4 2 2, .alloc 8 1 0, .alloc 4 1 5, .free 5, .alloc 8 1 7, .freeAll 2, .alloc 4 9 0,
+   .alloc 8 2 5]
+
+/-- What the examples look at: regions, lists, `avail`, and the tables on chunks `1 ..= 10`. -/
+structure View where
+  regions : List Reg
+  lists : List (List Nat)
+  avail : Nat
+  desc : List Nat
+  next : List Nat
+  prev : List Nat
+deriving Repr, DecidableEq
+
+def view (p : Option (G × St)) : Option View :=
+  p.map fun (g, st) => ⟨g.regions, g.lists, st.avail, (List.range' 1 10).map st.desc,
+    (List.range' 1 10).map st.next, (List.range' 1 10).map st.prev⟩
+
+/-- The history respects the protocol (debug and release). -/
+example : Valid true {} (finalize 12 2 9) exOps := valid_of_validB _ (by decide +kernel)
+example : Valid false {} (finalize 12 2 9) exOps := valid_of_validB _ (by decide +kernel)
+
+/-- After the first six operations: four regions on two lists. -/
+example : view (run true {} (finalize 12 2 9) (exOps.take 6)) =
+    some ⟨[⟨5, 1, 8⟩, ⟨8, 1, 4⟩, ⟨7, 1, 8⟩, ⟨2, 3, 4⟩], [[8, 2], [5, 7]], 2,
+      [0, 4, 4, 4, 8, 0, 8, 4, 0, 0], [0, 0, 0, 0, 7, 0, 0, 2, 0, 0], [0, 8, 0, 0, 0, 0, 5, 0, 0, 0]⟩ := by
+  decide +kernel
+
+/-- So `Inv` holds for a non-trivial state (`history_inv_init` applied to a concrete history). -/
+example : ∃ g st, run true {} (finalize 12 2 9) exOps = some (g, st) ∧ Inv 2 10 g st ∧ g.regions.length = 3 := by
+  obtain ⟨g, st, h⟩ := history_no_panic (debug := true) exOps
+    (inv_init (M := 12) (first := 2) (last := 9) (by decide) (by decide) (by decide))
+    (valid_of_validB _ (by decide +kernel))
+  refine ⟨g, st, h, history_inv_init (by decide) (by decide) (by decide) (valid_of_validB _ (by decide +kernel)) h, ?_⟩
+  have : (run true {} (finalize 12 2 9) exOps).map (fun p => p.1.regions.length) = some 3 := by decide +kernel
+  rw [h] at this
+  simpa using this
+
+/-- `alloc_fails_exact`'s hypothesis occurs: the eighth operation of `exOps` (`alloc 4 9 0`) returns `0`. -/
+example : (run true {} (finalize 12 2 9) (exOps.take 7)).map (fun p => (allocate true p.2 4 9 0).2) =
+    some (.val 0) := by decide +kernel
+
+/-- The harness's instance (`maxChunks = 2^25`, chunks `100 ..= 131`) satisfies `inv_init`'s hypotheses. -/
+example : Inv 100 (131 + 1) {} (finalize (2 ^ 25) 100 131) :=
+  inv_init (by decide) (by decide) (by omega)
 
 end Mmtk.Map32
